@@ -152,9 +152,48 @@ theorem roundtrip_sub_names (cfg : Cfg) (dfields : List DFld) (ms : Members) (hs
   exact roundtrip cfg _ ms hsoft hwf hkeys hopt hwt hcontig hord
 
 example : keyedFields facts03 none
-    [("order".toList, none, Ex.occ1, .obj 1 [("quantity".toList, some "qty".toList, Ex.occ1, .prim Ex.pInt)])] =
+    [("order".toList, {}, Ex.occ1, .obj 1 [("quantity".toList, { sub := some "qty".toList }, Ex.occ1, .prim Ex.pInt)])] =
     [("order".toList, Ex.occ1, .obj 1 [("qty".toList, Ex.occ1, .prim Ex.pInt)])] := by
   simp [keyedFields, keyedTy, keyName, facts03]
+
+/-- the declared signature as the decoder is run on it, and the instance as the user function sees it: a
+    member no key assigned shows its `default`, a `read_only` member is never assigned -/
+def decodeDecl (cfg : Cfg) (dfields : List DFld) (doc : Doc) : Outcome Node :=
+  omap (finishNode (.obj 0 dfields)) (decode facts03 cfg (keyedFields facts03 none dfields) doc)
+
+/-- the documented request over a signature with sub_names, defaults and read-only members, pairs in any
+    order: exactly the spelled object graph, defaults filled in where the request says nothing -/
+theorem documented_defaults_and_read_only (cfg : Cfg) (dfields : List DFld) (ms : Members) (doc : Doc)
+    (hstrict : cfg.strict = false) (hsoft : cfg.soft = false)
+    (hwf : WfSig (ownFields dfields)) (hkeys : KeysOk cfg.delim (ownFields dfields))
+    (hwt : WtMembers facts03 (ownFields dfields) ms)
+    (hp : doc.Perm (docOf facts03 cfg.delim (ownFields dfields) ms)) :
+    decodeDecl cfg dfields doc =
+      .ok (finishNode (.obj 0 dfields) (.obj (expAttrs (ownFields dfields) ms))) := by
+  unfold decodeDecl
+  rw [documented_any_order_sub_names cfg dfields ms doc hstrict hsoft hwf hkeys hwt hp]
+  rfl
+
+example : finishNode (.obj 0 [("a".toList, { dflt := some (.int 5) }, Ex.occ1, .prim Ex.pInt),
+      ("c".toList, { readOnly := true }, Ex.occ1, .prim Ex.pInt), ("d".toList, {}, Ex.occ1, .prim Ex.pInt)])
+    (.obj [("a".toList, .none), ("c".toList, .leaf (.int 9)), ("d".toList, .leaf (.int 2))]) =
+    .obj [("a".toList, .leaf (.int 5)), ("c".toList, .none), ("d".toList, .leaf (.int 2))] := by
+  simp [finishNode, finishAttrs, dfltNode]
+
+/-! ### the in-header: HTTP request headers as a flat document -/
+
+/-- The request headers `HTTP_<NAME>` (names distinct up to case) reach the declared in-header class as the
+    flat document `<name in lower case> -> [value]`: when that is the documented notation of a header object
+    (in any order — a WSGI environment is a dict), `ctx.in_header` is exactly that object. -/
+theorem in_header_delivered (cfg : Cfg) (hfields : List Fld) (ms : Members) (ps : List (Text × Text))
+    (hstrict : cfg.strict = false) (hsoft : cfg.soft = false)
+    (hn : (ps.map (fun p => p.1.map asciiLower)).Nodup)
+    (hwf : WfSig hfields) (hkeys : KeysOk cfg.delim hfields) (hwt : WtMembers facts03 hfields ms)
+    (hp : (ps.map fun p => (p.1.map asciiLower, [some p.2])).Perm (docOf facts03 cfg.delim hfields ms)) :
+    decode facts03 cfg hfields (httpHeaders (ps.map fun p => ("HTTP_".toList ++ p.1, p.2))) =
+      .ok (.obj (expAttrs hfields ms)) := by
+  rw [httpHeaders_pairs ps hn]
+  exact documented_any_order cfg hfields ms _ hstrict hsoft hwf hkeys hwt hp
 
 /-! ### before the protocol: the transport's WSDL shortcut -/
 
